@@ -848,7 +848,8 @@ class CodeAreaEval:
     AREA = ref.CODE_AREA
     # (code length, compressed length)
     CASES = [(100, 50), (100, 99), (100, 100), (100, 150), (1, 5), (0, 0),
-             (300, 20), (0x3d00, 0x3d10), (0x3d01, 0x3d10), (0x3d00 + 40, 0x3cf8),
+             (300, 20), (255, 30), (511, 40), (0x1fff, 0x100), (0x2aab, 77),
+             (0x3d00, 0x3d10), (0x3d01, 0x3d10), (0x3d00 + 40, 0x3cf8),
              (0x3d00 + 40, 0x3cf9), (0x3d00 + 40, 0x3d00), (70000, 100)]
 
     def __init__(self, ctx):
